@@ -24,7 +24,15 @@ type c01Case struct {
 	Kind   string `json:"kind"` // corpus | gen
 	File   string `json:"file,omitempty"`
 	Vector []int  `json:"vector,omitempty"`
+	Early  bool   `json:"early_add_and_func_forms,omitempty"`
 	Desc   string `json:"description"`
+}
+
+func c01Hooks(early bool) a2j.Hooks {
+	if early {
+		return a2j.Hooks{EarlyAdd: true, UseFunc: func(int, string) bool { return true }}
+	}
+	return a2j.Hooks{}
 }
 
 func c01Roots(tier ev.Tier) []string {
@@ -50,7 +58,7 @@ func runC01(r *ev.Recorder) {
 	r.Rule = "(i) corpus: every .go file (testdata and _ directories excluded) below GOROOT/src of the installed toolchain and below the repository itself (thorough: also /opt/veriftools/go1.26.8/src) - a complete enumeration of a fixed finite set in sorted order - " +
 		"is parsed, translated construct by construct into DSL calls (internal/a2j: the element the README documents for each construct), rendered with File.Render, re-parsed, and both trees compared in canonical form " +
 		"(internal/norm: positions, comments, redundant parentheses and empty statements dropped; literals by value; all-keyed composite literals as key-sorted lists and conventional struct tags as key-sorted maps, the documented ordering of Dict and Tag). " +
-		"(ii) generated programs: see coverage.generated. Skips are counted with their reason, never silent. distinct_nontrivial = distinct files / programs translated and compared (each contains at least one declaration)"
+		"Every fourth file (thorough: every file) is also translated with each declaration added to the File before it is completed and with the ...Func variant at every list site. (ii) generated programs: see coverage.generated. Skips are counted with their reason, never silent. distinct_nontrivial = distinct files / programs translated and compared (each contains at least one declaration)"
 	r.Assume = []string{"files with dot imports are skipped (uses of a dot import cannot be found syntactically), as are files importing one path twice (not expressible: the import table is keyed by path) and files that do not parse",
 		"go/parser, go/printer and go/constant define syntax trees and literal values"}
 
@@ -74,6 +82,16 @@ func runC01(r *ev.Recorder) {
 			}
 			b := roundTrip(path, src, res.name, a2j.Hooks{})
 			r.Eval(1)
+			if b.Kind == "ok" && (r.Tier == ev.Thorough || i%4 == 0) {
+				// the same file with every declaration added to the File BEFORE it is completed, and
+				// with the ...Func variant at every list-construct site
+				b2 := roundTrip(path, src, res.name, a2j.Hooks{EarlyAdd: true, UseFunc: func(site int, name string) bool { return true }})
+				r.Eval(1)
+				if b2.Kind != "ok" {
+					b = b2
+					b.Kind += "(early-add+Func-forms)"
+				}
+			}
 			rel := strings.TrimPrefix(path, root+"/")
 			mu.Lock()
 			kinds[b.Kind]++
@@ -92,7 +110,7 @@ func runC01(r *ev.Recorder) {
 			}
 			if b.violation() {
 				desc := fmt.Sprintf("%s: %s: %s", rel, b.Kind, b.Detail)
-				r.Violate(ev.Violation{Signature: "c01:corpus:" + b.Kind + ":" + rel, What: desc, Case: ev.JSON(c01Case{Kind: "corpus", File: path, Desc: desc}), Detail: b.Detail})
+				r.Violate(ev.Violation{Signature: "c01:corpus:" + b.Kind + ":" + rel, What: desc, Case: ev.JSON(c01Case{Kind: "corpus", File: path, Early: strings.Contains(b.Kind, "early-add"), Desc: desc}), Detail: b.Detail})
 			}
 			if i%1500 == 7 && r.WantSample() {
 				r.Sample(map[string]any{"file": rel, "result": b.Kind, "declarations": b.Decls, "list_construct_sites": b.Sites})
@@ -132,7 +150,7 @@ func replayC01(raw json.RawMessage) (bool, string) {
 		if strings.HasPrefix(c.File, "/opt/veriftools/go1.26.8") {
 			goroot = "/opt/veriftools/go1.26.8"
 		}
-		b := roundTrip(c.File, src, newResolver(goroot).name, a2j.Hooks{})
+		b := roundTrip(c.File, src, newResolver(goroot).name, c01Hooks(c.Early))
 		return !b.violation(), fmt.Sprintf("%s: %s %s", c.File, b.Kind, b.Detail)
 	case "gen":
 		return c01ReplayGenerated(c)
